@@ -797,6 +797,106 @@ func flushOverlap(variant int, dist map[string]int, impl *[]ImplViolation) Case 
 	return c
 }
 
+// freshRace: "fresh object over an existing database, first operations concurrent".  A database is seeded and
+// initialised through one Store / QueryStore and reopened; then, 20 times, a FRESH Store object (typed with
+// SetType, or untyped: SetType never called) is put over it, Init is called (a no-op: the store is initialised
+// already) and at once six transactions run concurrently on different ids - Read+Value, Update, Create, Delete,
+// Get, Exists - on the plain Store or on a Store that a fresh QueryStore (two indexes) listens to.
+func freshRace(typed, viaQS bool, dist map[string]int) {
+	dir, err := os.MkdirTemp("", "verif-index-")
+	if err != nil {
+		panic(err)
+	}
+	defer os.RemoveAll(dir)
+	open := func() *badger.DB {
+		opts := badger.DefaultOptions(dir)
+		opts.Logger = nil
+		opts.SyncWrites = false
+		db, err := badger.Open(opts)
+		if err != nil {
+			panic(err)
+		}
+		return db
+	}
+	mkVal := func(a string) interface{} {
+		if typed {
+			return val{A: []byte(a)}
+		}
+		return map[string]interface{}{"A": a}
+	}
+	keyOf := func(field string) func(interface{}) []byte {
+		return func(v interface{}) []byte {
+			if typed {
+				if field == "A" {
+					return append([]byte{}, v.(val).A...)
+				}
+				return v.(val).B
+			}
+			m, _ := v.(map[string]interface{})
+			if s, ok := m[field].(string); ok {
+				return []byte(s)
+			}
+			return nil
+		}
+	}
+	mkStore := func(db *badger.DB) (*badgerstore.Store, *badgerstore.QueryStore) {
+		st := badgerstore.NewStore(db)
+		if typed {
+			st.SetType(val{})
+		}
+		st.SetPrefix("v")
+		var qs *badgerstore.QueryStore
+		if viaQS {
+			var shared *badgerstore.IndexQuery
+			qs = badgerstore.NewQueryStore(st, func(*badgerstore.QueryStore, url.Values) (*badgerstore.IndexQuery, error) { return shared, nil }).
+				AddIndex(badgerstore.Index{Name: "k", Key: keyOf("A")}).
+				AddIndex(badgerstore.Index{Name: "kb", Key: keyOf("B")})
+			shared = &badgerstore.IndexQuery{Index: qs.Index("k"), Limit: -1}
+		}
+		return st, qs
+	}
+	ids := []string{"1", "2", "3", "4", "5", "6"}
+	db := open()
+	st0, qs0 := mkStore(db)
+	st0.Init(func(add func(id string, v interface{})) error {
+		for _, id := range ids {
+			add(id, mkVal("a"+id))
+		}
+		return nil
+	})
+	if qs0 != nil {
+		qs0.Flush()
+	}
+	db.Close()
+	db = open()
+	defer db.Close()
+	for round := 0; round < 20; round++ {
+		st, qs := mkStore(db)
+		st.Init(func(func(id string, v interface{})) error { return nil }) // initialised already: returns early
+		start := make(chan struct{})
+		var wg sync.WaitGroup
+		run := func(f func()) {
+			wg.Add(1)
+			go func() { defer wg.Done(); <-start; f() }()
+		}
+		run(func() { r := st.Read("1"); r.Value(); r.Close() })
+		run(func() { w := st.Write("2"); w.Update(mkVal(fmt.Sprintf("u%d", round))); w.Close() })
+		run(func() { w := st.Write(fmt.Sprintf("n%d", round)); w.Create(mkVal("c")); w.Close() })
+		run(func() { w := st.Write("3"); w.Delete(); w.Create(mkVal("d")); w.Close() })
+		run(func() { st.Get("4") })
+		run(func() { r := st.Read("5"); r.Exists(); r.Close() })
+		if qs != nil {
+			run(func() { qs.Query(nil) })
+		}
+		close(start)
+		wg.Wait()
+		if qs != nil {
+			qs.Flush()
+		}
+	}
+	dist["fresh_object_rounds"] += 20
+}
+
 // mainRace (-race-subset): for a -race build.  Concurrent index queries - directly and through a QueryHandler -
 // whose IndexQuery callback returns ONE shared *IndexQuery per scenario (negative limit / offset variants; a
 // fresh shared value per scenario since a write to it shows on first use), plus a concurrent writer.
@@ -881,8 +981,16 @@ func mainRace(o Opts) {
 			cases = append(cases, Case{Term: "C13 [] [] [] [] [] []", Desc: map[string]interface{}{"scenario": "shared-index-query", "offset": v.off, "limit": v.lim}})
 		}
 	}
+	// fresh Store / QueryStore objects over an existing, initialised database: first operations concurrent
+	for _, typed := range []bool{false, true} {
+		for _, viaQS := range []bool{false, true} {
+			freshRace(typed, viaQS, dist)
+			dist["race_scenarios"]++
+			cases = append(cases, Case{Term: "C13 [] [] [] [] [] []", Desc: map[string]interface{}{"scenario": "fresh-object-first-operations", "typed": typed, "query_store": viaQS}})
+		}
+	}
 	Emit(o, "C13", "From GoRes Require Import Run.Run_C13.", "c13case",
-		"race-detector subset: concurrent index queries (4 goroutines directly, 3 through store.QueryHandler get requests) sharing one *IndexQuery returned by the query callback, with a concurrent writer; outputs are not compared",
+		"race-detector subset: concurrent index queries (4 goroutines directly, 3 through store.QueryHandler get requests) sharing one *IndexQuery returned by the query callback, with a concurrent writer; and fresh Store / QueryStore objects (typed and untyped, 20 each) put over an existing initialised database whose first six transactions (Read+Value, Update, Create, Delete+Create, Get, Exists, and a query) run concurrently on different ids; outputs are not compared",
 		cases, dist, nil, impl, 40)
 }
 
